@@ -71,17 +71,20 @@ def run(ctx: vlib.Ctx):
     ctx.theorems("props/C02_pack.vo", ["C02_pack_ref", "C02_field_packer", "C02_basic"])
     ctx.theorems("props/C02_collection_kernel.vo", ["C02_seq_decision_is_code", "C02_map_decision_is_code",
                                                     "C02_conversion_never_skipped", "C02_byref_iff_listed_identity"], kernels=["K15"])
-    ctx.coqchk(["VerifProps.C02_pack", "VerifProps.C02_collection_kernel"])
+    ctx.theorems("props/C02_ntdict.vo", ["C02_ntdict_pack_ref", "C02_ntdict_basic", "C02_ntdict_is_named_list"])
+    ctx.coqchk(["VerifProps.C02_pack", "VerifProps.C02_collection_kernel", "VerifProps.C02_ntdict"])
     ctx.trusted += ["tools/kernels/k15_collection_exprs.py (translator of _make_sequence_expression/_make_mapping_expression; "
                     "recognised tests and returned templates are listed explicitly, anything else fails closed)"]
     ctx.trusted += ["TyModel.v (cp/pk: hand-written model of pack.py registry order, copy-vs-comprehension and could_be_none decisions) "
                     "tied by vm_compute correspondence; stdlib renderings (isoformat, str, total_seconds, encodebytes, Enum.value) are oracle tables"]
     ctx.assumptions += ["format dialect part (orjson/msgpack/TOML native types, TOML null dropping) and unions (and enum-member / bytes literals) "
                         "are decided by the reference-interpreter oracle only (outside the Coq grammar); NamedTuple (as_list form), TypedDict "
-                        "(required keys, then the optional keys present) tuples with an unpacked segment (index/slice plan = kernel K7) and the abstract / special collection classes (Sequence, Mapping, Deque, OrderedDict, DefaultDict, MappingProxyType, Counter, ChainMap) and Literal types of int/str/bool/None constants are inside the Coq grammar; namedtuple_as_dict and generic NamedTuples/TypedDicts are oracle only"]
+                        "(required keys, then the optional keys present) tuples with an unpacked segment (index/slice plan = kernel K7) and the abstract / special collection classes (Sequence, Mapping, Deque, OrderedDict, DefaultDict, MappingProxyType, Counter, ChainMap) and Literal types of int/str/bool/None constants are inside the Coq grammar; the as_dict form of a NamedTuple class at the top of a codec is modelled in TyNtDict.v (C02_ntdict_pack_ref / _basic + correspondence); as_dict NamedTuples at nested positions under the global option and generic NamedTuples/TypedDicts are oracle only"]
 
     cases, bad, log = tycorr.run(ctx, "c02_ty", ctx.budget(40, 300), 3, depth=3, foreign=1)
     hits = tyoracle.report_corr(ctx, "TyModel.pk/ref_enc vs BasicEncoder.encode", cases, bad, log, want="enc")
+    ncases, nbad, nlog = tycorr.run_nd(ctx, "c02_nd", ctx.budget(40, 300), foreign=0)
+    hits += tyoracle.report_corr(ctx, "TyNtDict.pk_nd/ref_enc_nd vs BasicEncoder.encode under an as_dict dialect", ncases, nbad, nlog, want="enc")
 
     # direct oracle: independent reference interpreter + basic-ness + json.dumps
     n = ctx.budget(800, 5000) if not hits else ctx.budget(2500, 10000)
